@@ -132,14 +132,44 @@ theorem cexpireOne_inv (s : CState) (h : CInv s) (old : Nat) (ho : old ∈ s.liv
     exact ⟨h.whl.reach, fun q hq => h.whl.sched q (List.mem_filter.mp hq).1,
       List.Nodup.sublist (List.Sublist.map _ List.filter_sublist) h.whl.ids⟩
 
+/-- **a replaced value, through both policies**: the table retires the old node and creates the new one alive, runTask update
+    unschedules the old node, schedules the new one and replays policy.update, the eviction pass runs, victims are unlinked -/
+def creplace (s : CState) (id old key wt d : Nat) : CState :=
+  let p' := evictNodes (update (mkNode (retire s.p old) id key wt .alive) id old)
+  let l1 := (id, d) :: s.live.filter (fun q => q.1 != old)
+  { S := id :: s.S, p := p',
+    w := (victims p' l1).foldl Impl.Wheel.delete (Impl.Wheel.add (Impl.Wheel.delete s.w old) id d),
+    live := l1.filter (fun q => !(victims p' l1).contains q.1) }
+
+theorem creplace_inv (s : CState) (h : CInv s) (id old key wt d : Nat) (hs : id ∉ s.S) (ho : old ∈ s.live.map (·.1))
+    (hd : d < Impl.Wheel.two64) : CInv (creplace s id old key wt d) := by
+  have hj := jreplace h.pol id old key wt hs ho
+  have hw1 := Impl.Wheel.wj_remove h.whl old
+  have hnl : id ∉ (s.live.filter (fun q => q.1 != old)).map (·.1) := by
+    intro hm
+    obtain ⟨q, hq, e⟩ := List.mem_map.mp hm
+    exact hs ((h.pol.alive id).mp (List.mem_map.mpr ⟨q, (List.mem_filter.mp hq).1, e⟩)).1
+  have hw := Impl.Wheel.wj_insert hw1 id d hd hnl
+  unfold creplace
+  simp only
+  generalize evictNodes (update (mkNode (retire s.p old) id key wt .alive) id old) = p' at hj ⊢
+  constructor
+  · show JInv (id :: s.S) p' ((((id, d) :: s.live.filter (fun q => q.1 != old)).filter
+        (fun q => !(victims p' ((id, d) :: s.live.filter (fun q => q.1 != old))).contains q.1)).map (·.1))
+    rw [survivors_map p' ((id, d) :: s.live.filter (fun q => q.1 != old)), List.map_cons, map_filter_ne]
+    exact hj
+  · exact wj_remove_many hw _
+
 /-! ### histories of the combined state -/
 
 inductive COp where
-  | insert (id key wt d : Nat) | remove (old : Nat) | expireOne (old : Nat)
+  | insert (id key wt d : Nat) | replace (id old key wt d : Nat) | remove (old : Nat) | expireOne (old : Nat)
 
 /-- operations whose precondition fails are not steps of the cache (relation, not a function with `if d < 2^64`: see WheelJoint) -/
 inductive CStep : CState → CState → Prop
   | insert (s : CState) (id key wt d : Nat) : id ∉ s.S → d < Impl.Wheel.two64 → CStep s (cinsert s id key wt d)
+  | replace (s : CState) (id old key wt d : Nat) : id ∉ s.S → old ∈ s.live.map (·.1) → d < Impl.Wheel.two64 →
+      CStep s (creplace s id old key wt d)
   | remove (s : CState) (old : Nat) : old ∈ s.live.map (·.1) → CStep s (cremove s old)
   | expireOne (s : CState) (old : Nat) : old ∈ s.live.map (·.1) → CStep s (cexpireOne s old)
 
@@ -150,6 +180,7 @@ inductive CRun : CState → CState → Prop
 theorem cstep_inv {s s' : CState} (st : CStep s s') (h : CInv s) : CInv s' := by
   cases st with
   | insert id key wt d hs hd => exact cinsert_inv s h id key wt d hs hd
+  | replace id old key wt d hs ho hd => exact creplace_inv s h id old key wt d hs ho hd
   | remove old ho => exact cremove_inv s h old ho
   | expireOne old ho => exact cexpireOne_inv s h old ho
 
